@@ -60,6 +60,11 @@ class Expect:
                 conds.append(has)
         return z3.Or(*conds)
 
+    def non_keyword_extra(self, sn: SNode):
+        """some unknown key of the root mapping is not a string: it cannot be delivered as **kwargs"""
+        j = z3.Int("nk!")
+        return z3.Exists([j], z3.And(j >= 0, j < sn.nex, T.F_cls(T.F_keyat(sn.exkeys, j)) != self.interp.reg.cls(str)))
+
     def loader_ok(self, fname):
         present, sn, _ = self.leaf_info[fname]
         return T.F_ok(self.run.loaders[fname].t, sn.t)
@@ -77,6 +82,8 @@ class Expect:
             ok = z3.And(reached, self.kind_ok(cnode, sn))
             if isinstance(cnode, DictNode) and self.layout.extra_in == "forbid":
                 errs.append((f"extra-fields@{path}", z3.And(ok, self.extras_present(cnode, sn))))
+            if isinstance(cnode, DictNode) and self.layout.extra_in == "kwargs" and path == ():
+                errs.append(("extra-key-not-a-keyword", z3.And(ok, self.non_keyword_extra(sn))))
             if isinstance(cnode, ListNode):
                 errs.append((f"short-list@{path}", z3.And(ok, sn.len < cnode.size)))
                 if self.layout.extra_in == "forbid":
@@ -93,6 +100,8 @@ class Expect:
                     conj.append(sn.len == cnode.size)
             if isinstance(cnode, DictNode) and self.layout.extra_in == "forbid":
                 conj.append(z3.Not(self.extras_present(cnode, sn)))
+            if isinstance(cnode, DictNode) and self.layout.extra_in == "kwargs" and path == ():
+                conj.append(z3.Not(self.non_keyword_extra(sn)))
         for fname, (present, sn, path) in self.leaf_info.items():
             if self.fields[fname].required:
                 conj.append(present)
